@@ -384,7 +384,7 @@ func TestVerifC15(t *testing.T) {
 
 func c15Mem(t *testing.T, r *verifkit.Run) {
 	p := c15Profile()
-	n := r.N(500, 8000)
+	n := r.N(500, 6000)
 	for ci := 0; ci < n; ci++ {
 		rng := r.Rand(ci)
 		cfg := gGenConfig(rng, p, fmt.Sprintf("g%d", ci))
@@ -490,7 +490,7 @@ func c15Etcd(t *testing.T, r *verifkit.Run) {
 	p.Cleanups = []int64{3600000}
 	p.WAdvance = 0
 	p.WFailover = 0
-	n := r.N(30, 400)
+	n := r.N(30, 300)
 	deadline := time.Now().Add(5 * time.Minute)
 	if r.Thorough() {
 		deadline = time.Now().Add(25 * time.Minute)
